@@ -559,6 +559,8 @@ PROPS["C11"] = {
     "units": [
         {"name": "rounds", "pkg": "./zverif/c11", "run": "^TestVerifC11$", "race": True, "timeout": {"quick": 500, "thorough": 3000},
          "shards": {"quick": 1, "thorough": 8}},
+        {"name": "preempt-stress", "pkg": "./zverif/c11", "run": "^TestVerifC11Preempt$", "race": True, "timeout": {"quick": 200, "thorough": 400},
+         "shards": {"quick": 1, "thorough": 1}},
     ],
     "rule": "race build. rapid draws a round: 2..8 mocker goroutines, each with its own builders, looping apply -> call -> re-stub -> call -> reset -> call "
             "over two corpus functions of its own (all targets contiguous in the text, sharing pages with each other and with code being executed; "
@@ -566,7 +568,7 @@ PROPS["C11"] = {
             "callbacks forwarding to the origin placeholder of frameless leaves - through frameless leaf placeholders, a pair being admitted only when the runtime's pc->frame-size table of the placeholder agrees with the relocated code at every pc; the generated framed placeholders are judged by the probe of open finding origin-placeholder-frame-metadata), with generated iteration counts and yield points, all released by a "
             "spin barrier. Oracle: no data-race report with a goom frame, no crash, every steady call yields the mocked result, every mocker sees "
             "exactly its own mock after its apply and the original after its reset, at quiescence the text image is pristine (outside placeholder "
-            "bodies) and no text page is writable. Every round is non-trivial; distinct by its parameters.",
+            "bodies) and no text page is writable. Every round is non-trivial; distinct by its parameters. preempt-stress: a child process in which 3 callers of origin-forwarding callbacks (pairs the frame-table judge admits) run next to a goroutine starting one collection after the other for 4 s (thorough 25 s), so that every cycle stops each caller at an arbitrary instruction and scans its stack there: the child must survive with right results; the same stress on a framed pair the judge rejects is run and its outcome recorded, not judged (open finding).",
     "assumptions": ["the harness does not own the scheduler: seeded stress under the race detector, sound but incomplete",
                     "race builds use -gcflags=-d=checkptr=0 (the checkptr instrumentation -race turns on aborts inside CreateFuncForCodePtr; that is not a data race)"],
     "floors": [("rounds", "steady-calls", 5000), ("rounds", "mocker-apply-restub-reset-cycles", 500), ("rounds", "steady-origin-callers/Z016", 20)],
